@@ -143,9 +143,15 @@ def parse_model(o):
 EXTRA = {'cart': 0, 'cyl': 0}      # set by run() from the translator (0 = tree as it is, 1 = with notes/fixes/C10-1.diff)
 
 
+RULE_KNOWN = [True]                # False when the translator does not recognise the rule: the oracle then only uses `step`
+
+
 def doc_plan(length, step, ms, geo='cart'):
-    """sampling rule as written in the source (read by the translator): n = max(min_samples, int(length/step) + extra)"""
+    """sampling rule as written in the source (read by the translator): n = max(min_samples, int(length/step) + extra).
+    If the rule is not recognised the oracle falls back to the coarsest step the property tolerates (2*step)."""
     n = max(ms, int(length / step) + EXTRA[geo])
+    if not RULE_KNOWN[0]:
+        return n, max(2.0 * step, length / n)
     return n, length / n
 
 
@@ -293,8 +299,10 @@ def check_oracle(ctx, cfg, step, ms, seg, spec0, entries, desc, L=None, pcs=None
     vm = vmap_of(cfg)
     nb = len(entries)
     if L < 0.1 * step:
-        if any(entries[j] != spec0[j] for j in range(nb)):
-            ctx.fail('C10:%s:short-path-not-skipped' % cfg['geo'], 'path %.3g < 0.1*step but the spectrum changed' % L, desc)
+        # the code skips such paths; integrating them would be just as good: the entries must not exceed the path length
+        tot0 = sum(entries[j] - spec0[j] for j in range(nb))
+        if any(entries[j] < spec0[j] for j in range(nb)) or tot0 > L * (1 + 1e-9) + 1e-300 + slack:
+            ctx.fail('C10:%s:short-path' % cfg['geo'], 'path %.3g < 0.1*step: entries changed by %r in total' % (L, tot0), desc)
             return False
         return True
     n, dt = doc_plan(L, step, ms, cfg['geo'])
@@ -345,10 +353,11 @@ def check_oracle(ctx, cfg, step, ms, seg, spec0, entries, desc, L=None, pcs=None
                      % (j, got[j], chord[j], runs[j], dt, n, abs(got[j] - chord[j]), max(1, runs[j])), desc)
             ok = False
         k = got[j] / dt
-        if abs(k - round(k)) > 1e-6 * max(1.0, abs(k)):
-            ctx.fail('C10:%s:entry-not-multiple-of-dt' % cfg['geo'],
-                     'source %d: entry %r is not an integer number of dt=%r (n=max(min_samples,int(len/step))=%d)' % (j, got[j], dt, n), desc)
-            ok = False
+        if RULE_KNOWN[0] and abs(k - round(k)) > 1e-6 * max(1.0, abs(k)) and not ctx.extra.get('dt_rule_mismatch'):
+            # tie between the sampling rule read from the source and the behaviour (not a clause of the property)
+            ctx.extra['dt_rule_mismatch'] = True
+            ctx.broke('correspondence', 'C10 sampling rule: entries are not integer multiples of the dt the source text implies',
+                      dict(source=j, entry=got[j], dt=dt, n=n, input=desc))
     tot = sum(got)
     if abs(tot - active_chord) > dt * max(1, active_runs) * (1 + TOL) + tiny:
         ctx.fail('C10:%s:total-vs-active-chord' % cfg['geo'],
@@ -808,8 +817,9 @@ def build_rt(ctx, cfg, step_arg, tr, world):
         gline = 'boxgeom %s %d %d %d' % (fs(ext), sh[0], sh[1], sh[2])
         up, lo = rt._primitive.upper, rt._primitive.lower
         gexp = [rt.material.dx, rt.material.dy, rt.material.dz, rt.step if step_arg is None else None, up.x, up.y, up.z]
-        if (lo.x, lo.y, lo.z) != (0.0, 0.0, 0.0):
-            ctx.fail('C10:box:lower-corner', 'Box lower corner %r is not the grid origin' % ((lo.x, lo.y, lo.z),), dict(ext=ext))
+        if (lo.x, lo.y, lo.z) != (0.0, 0.0, 0.0) and not ctx.extra.get('box_lower_moved'):
+            ctx.extra['box_lower_moved'] = True
+            ctx.broke('correspondence', 'C10 bounding primitive: Box lower corner is not the grid origin', dict(lower=(lo.x, lo.y, lo.z), ext=ext))
         cfg['steps'] = (rt.material.dx, rt.material.dy, rt.material.dz)
         bound = dict(kind='box', upper=[ext[a] - 1e-5 * ext[a] / sh[a] for a in range(3)], centre=[0.5 * e for e in ext], size=max(ext))
         rec = _recording(CartesianRayTransferIntegrator)(rt.step)
@@ -949,7 +959,10 @@ def judge_e2e(ctx, metas, outs, glines, gexp, gout):
         # raysect integrates from the far end towards the ray origin: orient the recorded segments along the ray
         rsegs = sorted([(sg if _along(sg[:3], o, d) <= _along(sg[3:], o, d) else sg[3:] + sg[:3]) for sg in m['segs']],
                        key=lambda sg: _along(sg, o, d))
-        if len(exp_segs) != len(rsegs) or any(max(abs(a - b) for a, b in zip(es, gs)) > 1e-6 * scale for es, gs in zip(exp_segs, rsegs)):
+        # tolerance: well above the 1e-5-cell shrink (its exact size is compared with the model, K), well below a sample step
+        cellmin = min(cfg['steps']) if cfg['geo'] == 'cart' else min(cfg['steps'][0], cfg['steps'][2])
+        tolseg = 1e-4 * cellmin + 1e-6 * scale
+        if len(exp_segs) != len(rsegs) or any(max(abs(a - b) for a, b in zip(es, gs)) > tolseg for es, gs in zip(exp_segs, rsegs)):
             ctx.fail('C10:%s:bounding-primitive' % cfg['geo'],
                      'integrated segments %r differ from the exact intersection with the documented bounding primitive %r' % (m['segs'], exp_segs), desc)
             continue
@@ -1224,6 +1237,7 @@ def setup_translator(ctx):
     from harness.translators import raytransfer as tr
     vals, problems = tr.run()
     EXTRA.update(vals)
+    RULE_KNOWN[0] = not problems
     ctx.extra['sample_count_rule'] = dict(extra=vals, meaning='n = max(min_samples, int(length/step) + extra)')
     for p in problems:
         ctx.broke('correspondence', 'C10 translator', p)
